@@ -18,14 +18,29 @@ ASSUMPTIONS = ['the expected structure is computed from the abstract document by
                'documents are generated unambiguous (follow conditions enforced by the layout: a control word is not followed '
                'by a letter; text never contains active characters)']
 PARTIAL = ['C02_parse_unparse_partial / C02_items_simulation_partial / C02_whitespace_irrelevant_partial / '
-           'C02_tree_whitespace_irrelevant_partial: proved for the CORE sub-grammar of coq/Doc/DocGrammar.v (stages a-d): '
+           'C02_tree_whitespace_irrelevant_partial: proved for the CORE sub-grammar of coq/Doc/DocGrammar.v (stages a-d, e2): '
            'text runs of inert characters, non-paragraph whitespace before every item / closing delimiter / end of input, '
            'nested braced groups, macro calls (control words with post-space, control symbols) whose signature is made only '
            'of mandatory brace arguments written as braced groups directly after the name (any math-mode delta), inline math '
-           '$..$ and \\(..\\), display math \\[..\\] outside math mode, comments (% text newline whitespace), paragraph breaks (whitespace run with >= 2 newlines ending with its last newline, context with the \\n\\n specials); all documents of that grammar, all contexts. '
-           'NOT covered by the theorem (only by the differential correspondence and the structure oracle): a paragraph '
-           'break followed by indentation or directly after a control word / comment, a comment ending at the end of input, optional star / bracket arguments, single-token arguments, whitespace or comments before an argument, '
-           'environments, specials, $$..$$, verbatim']
+           '$..$ and \\(..\\), display math \\[..\\] and $$..$$ outside math mode, comments (% text newline whitespace), '
+           'paragraph breaks (whitespace run with >= 2 newlines ending with its last newline, context with the \\n\\n '
+           'specials); all documents of that grammar, all contexts.',
+           'C02_parse_unparse2_partial / C02_parse_unparse2_modes_partial (strict AND tolerant mode) / C02_items_simulation2_partial / C02_whitespace_irrelevant2_partial / '
+           'C02_tree_whitespace_irrelevant2_partial: the same for the EXTENDED grammar of coq/Doc/DocGrammar2.v = the core '
+           'grammar with PRECISE text characters (a character is text when no specials sequence of the context matches at it, so '
+           'a-b / don\'t / Hi! are text under the default context) plus (e1) environments \\begin{name} args body \\end{name} (known to the context or covered by its '
+           'unknown-environment fallback, mandatory brace arguments, body in math mode when declared so, whitespace allowed '
+           'between \\begin / \\end and the brace), (e3) the specials sequences of the context (longest match, with arguments if '
+           'declared), (e4) arguments per slot of the declared signature: braced group with whitespace in front where the '
+           'slot allows it, delimited argument [..] (any single-character delimiter pair) written or - when optional - absent, '
+           'marker character * written or absent; side conditions: an absent argument is not followed (after whitespace) by '
+           'its opening character, the two delimiter characters are not text directly in the body of a delimited argument, '
+           'at most 8*(length of the call token)-4 absent arguments per call (the fuel of the model), (e5) a mandatory argument '
+           'written as one token: a character, a control sequence (its own arguments are not parsed), a specials sequence, '
+           '(e6) a comment that ends with the input, a paragraph break followed by indentation, (e7) verbatim: \\verb<c>text<c> and '
+           'the verbatim environments (verbatim; lstlisting with its optional argument written or absent), the verbatim argument '
+           'kind of custom signatures. '
+           'NOT covered by any theorem (only by the differential correspondence and the structure oracle): ' + """a delimited argument written directly (not inside braces) in the body of another delimited argument, a whitespace run with two or more newlines in a context without the paragraph specials (a character token there), a paragraph break as the single-token argument of a macro"""]
 REFUTED = []
 CASE_TIMEOUT = 10.0
 case_from_desc = None
